@@ -10,6 +10,7 @@ CONSTANTS
   MaxK = 2
   MaxF = 1
   CfgSpace <- QTwinStopCfgs
+  SimBias = FALSE
 CONSTRAINT Bound
 CHECK_DEADLOCK FALSE
 INVARIANT TypeOK
